@@ -63,7 +63,7 @@ impl StepOracle for C11Oracle {
         let d = self.reference.take().flatten();
         if let Some(d) = d {
             classes.push(if m < d { "m:<D" } else if m == d { "m:=D" } else { "m:>D" });
-            if m == d || m == d + 1 || m + 1 == d {
+            if m == d || Some(m) == d.checked_add(1) || m.checked_add(1) == Some(d) {
                 classes.push("m:within-1-of-D");
                 if ops.len() >= 2 {
                     self.nontrivial += 1;
@@ -78,7 +78,8 @@ impl StepOracle for C11Oracle {
                 Some(g) => g,
                 None => return Verdict::Fail(format!("step {}: an empty route succeeded", cx.index)),
             };
-            if g < m as i128 {
+            // (compared in the unsigned domain: a bound in the upper half of the 128-bit range must not wrap)
+            if g < 0 || (g as u128) < m {
                 return Verdict::Fail(format!("step {}: route with minimum_receive {} succeeded but the recipient {} netted only {} of the final asset", cx.index, m, receiver, g));
             }
         } else {
